@@ -177,6 +177,8 @@ def unsplit_netloc(username, password, hostname, port):
     else:
         auth = None
 
+    hostname = hostname or ""
+
     if auth:
         hostname = auth + "@" + hostname
     if port:
